@@ -293,21 +293,21 @@ Example enum_neq_undeclared_witness_passes :
              select_enum (Some ix) [0] ONeq [122; 122; 122] = [0].
 Proof. eexists. split; vm_compute; reflexivity. Qed.
 
-(** any operator other than [=] / [!=] on an enum column: [None], hence no zones *)
-Theorem enum_range_op_refuted :
-  exists variants zones ix zid vals lit all,
-    build_all variants zones = Some ix /\ In (zid, vals) zones /\ In lit variants /\
-    (exists v, In v vals /\ In v variants /\ row_matches OGt v lit = true) /\
-    ~ In zid (select_enum (Some ix) all OGt lit).
+(** any operator other than [=] / [!=] on an enum column (repaired by 01eee7e): the pruner
+    answers [None] and the selector now falls back to every zone of the segment.
+    (Was [enum_range_op_refuted].) *)
+Theorem enum_unserved_op_all_zones : forall ix all op lit,
+  op <> OEq -> op <> ONeq -> select_enum ix all op lit = all.
 Proof.
-  exists [[97]; [98]], [(0, [[98]])].
-  eexists. exists 0, [[98]], [97], [0].
-  split; [vm_compute; reflexivity|].
-  split; [cbn; tauto|].
-  split; [cbn; tauto|].
-  split; [exists [98]; split; [cbn; tauto|split; [cbn; tauto|vm_compute; reflexivity]]|].
-  vm_compute. tauto.
+  intros ix all op lit H1 H2. unfold select_enum, attempt.
+  destruct op; try congruence; cbn [op_answered negb]; apply select_none_op_all; reflexivity.
 Qed.
+
+(** the former witness of [EnumRangeOp] now passes *)
+Example enum_range_op_witness_passes :
+  exists ix, build_all [[97]; [98]] [(0, [[98]])] = Some ix /\
+             select_enum (Some ix) [0] OGt [97] = [0].
+Proof. eexists. split; vm_compute; reflexivity. Qed.
 
 (** [rows_per_zone] is cast to u16: a first zone of 65536 rows gives 0, the bitmaps are
     empty and the first row that holds a declared variant panics ([None]) — in every zone. *)
@@ -329,14 +329,7 @@ Proof.
   intros variants v r Hin. change (rows_per_zone_of 65536) with 0. now apply add_zone_values_rpz0.
 Qed.
 
-(** * The known classes and the strongest true statement *)
-
-(** [EnumRangeOp]: an operator other than [=], [!=] (the only class left after f801704). *)
-Definition enum_known (op : cmp_op) : bool :=
-  match op with
-  | OEq | ONeq => false
-  | _ => true
-  end.
+(** * The strongest true statement: no known class is left for the selector level *)
 
 Lemma not_in_position_none : forall vs v, ~ In v vs -> position vs v = None.
 Proof.
@@ -345,10 +338,10 @@ Proof.
 Qed.
 
 (** Every zone whose rows hold declared variants only (what STORE admits, C06) and that
-    holds a row satisfying the probe is a candidate — for [=] and [!=] with ANY literal,
-    declared or not.  [all] is the list of all zones of the segment. *)
-Theorem enum_outside_known : forall variants zones ix zid vals op lit all,
-  enum_known op = false ->
+    holds a row satisfying the probe is a candidate — for EVERY operator and ANY literal,
+    declared or not.  [all] is the list of all zones of the segment.  (Was
+    [enum_outside_known] with the exclusion [enum_known].) *)
+Theorem enum_sound_all_operators : forall variants zones ix zid vals op lit all,
   build_all variants zones = Some ix ->
   NoDup (map fst zones) ->
   In (zid, vals) zones ->
@@ -357,8 +350,8 @@ Theorem enum_outside_known : forall variants zones ix zid vals op lit all,
   (exists v, In v vals /\ row_matches op v lit = true) ->
   In zid (select_enum (Some ix) all op lit).
 Proof.
-  intros variants zones ix zid vals op lit all Hk Hb Hnd Hin Hall Hdecl [v [Hv Hm]].
-  destruct op; cbn [enum_known] in Hk; try discriminate.
+  intros variants zones ix zid vals op lit all Hb Hnd Hin Hall Hdecl [v [Hv Hm]].
+  destruct op; try (rewrite enum_unserved_op_all_zones by discriminate; exact Hall).
   - assert (v = lit) by (now apply bytes_eqb_eq). subst v.
     eapply enum_eq_sound; eauto.
   - destruct (in_dec (list_eq_dec N.eq_dec) lit variants) as [Hd|Hu].
